@@ -65,7 +65,10 @@ def make_case(rng, tier):
         elif r < 0.72:
             a, b, kd = gen.pick_interval(rng, ts, te, x)
             m = rng.choice([t for t in x if a < t < b] + [(a + b) / 2])
-            steps.append(["additive", [a, m, b]])
+            if a < m < b:          # (a, b adjacent doubles: the midpoint rounds onto an end and [m, b] would be empty)
+                steps.append(["additive", [a, m, b]])
+            else:
+                steps.append(["integral", [a, b], kd])
         elif r < 0.80:
             steps.append(["eval", near_times(rng, x, ts, te)])
         elif r < 0.84:
@@ -178,6 +181,8 @@ class Prop(BaseProp):
             elif op == "additive":
                 ctx.count("additive")
                 a, m, b = step[1]
+                if not (a < m < b):
+                    continue
                 i1 = ctx.call(obj.integral, (a, m), _name=cname + ".integral")
                 i2 = ctx.call(obj.integral, (m, b), _name=cname + ".integral")
                 i3 = ctx.call(obj.integral, (a, b), _name=cname + ".integral")
